@@ -15,6 +15,7 @@ import (
 	"os"
 	"os/exec"
 	"os/signal"
+	"path/filepath"
 	"strings"
 	"syscall"
 
@@ -28,6 +29,111 @@ func init() {
 		}
 		return c13FsizeChild(decInt(a[0]), decInt(a[1]), decInt(a[2]))
 	}
+	// the same run, answering with the OBSERVATION (errors returned, bytes left on disk) instead of
+	// a verdict; child process only
+	extraOps["cache.fsizeobs"] = func(a []sexp) string {
+		if len(a) < 3 {
+			return "ERR"
+		}
+		return c13FsizeObs(decInt(a[0]), decInt(a[1]), decInt(a[2]))
+	}
+	// Go re-statement of the outcome set of the Lean fault model (Gts/Model/CacheFault.lean
+	// `runSession`) for file-size faults, tied to the Lean definitions by the correspondence run:
+	//   cache.fault x<r> x<q> x<deflated> x<disk> x<H(disk[3d:])> <write-error> <close-error>
+	//   cache.faultcreate <d> x<disk>
+	extraOps["cache.fault"] = func(a []sexp) string {
+		if len(a) < 7 {
+			return "ERR"
+		}
+		return b01(c13FaultFits(decBytes(a[0]), decBytes(a[1]), decBytes(a[2]), decBytes(a[3]), decBytes(a[4]), decInt(a[5]) == 1, decInt(a[6]) == 1))
+	}
+	extraOps["cache.faultcreate"] = func(a []sexp) string {
+		if len(a) < 2 {
+			return "ERR"
+		}
+		disk := decBytes(a[1])
+		return b01(len(disk) < 3*decInt(a[0]) && c13IsZero(disk))
+	}
+}
+
+// c13FaultFits: is (disk, errors) an outcome of `CreateLevel` (working); one `Write` that either
+// works or fails with k bytes of the stream on disk; `Close` whose flush either works or fails with
+// k bytes of the stream on disk and whose other steps work — for the constant digest `bsum` and the
+// complete stream `z`?  (k is determined by the length of the file.)
+func c13FaultFits(r, q, z, disk, bsum []byte, werr, cerr bool) bool {
+	d3 := 3 * len(bsum)
+	hdr := append(append(c13Clone(r), q...), bsum...)
+	if len(hdr) != d3 || len(disk) < d3 || !bytes.Equal(disk[:d3], hdr) {
+		return false
+	}
+	body := disk[d3:]
+	switch {
+	case werr:
+		// the flate writer is broken: Close reports it (sticky) and adds nothing
+		return cerr && len(body) <= len(z) && bytes.Equal(body, z[:len(body)])
+	case cerr:
+		return len(body) <= len(z) && bytes.Equal(body, z[:len(body)])
+	}
+	return bytes.Equal(body, z)
+}
+
+func c13FsizeBody(n int) []byte {
+	body := make([]byte, n)
+	x := uint32(2463534242)
+	for i := range body {
+		x ^= x << 13
+		x ^= x >> 17
+		x ^= x << 5
+		body[i] = byte(x >> 11)
+	}
+	return body
+}
+
+// c13FsizeObs runs in its own process: CreateLevel; Write in chunks of 512 until one fails; Close —
+// under the file-size limit; answers `create-error x<disk>` or `obs <werr> <cerr> x<disk>`.
+func c13FsizeObs(limit, n, level int) string {
+	dir, err := ioutil.TempDir("", "c13-fsize-")
+	if err != nil {
+		return "SKIP tempdir"
+	}
+	defer os.RemoveAll(dir)
+	body := c13FsizeBody(n)
+	rsum, qsum := sha1.Sum([]byte("root")), sha1.Sum([]byte("data"))
+	signal.Ignore(syscall.SIGXFSZ)
+	var old syscall.Rlimit
+	if err := syscall.Getrlimit(syscall.RLIMIT_FSIZE, &old); err != nil {
+		return "SKIP getrlimit"
+	}
+	lim := old
+	lim.Cur = uint64(limit)
+	if err := syscall.Setrlimit(syscall.RLIMIT_FSIZE, &lim); err != nil {
+		return "SKIP setrlimit"
+	}
+	restore := func() { syscall.Setrlimit(syscall.RLIMIT_FSIZE, &old) }
+	onDisk := func() []byte {
+		files, _ := filepath.Glob(filepath.Join(dir, "*"))
+		if len(files) != 1 {
+			return nil
+		}
+		b, _ := ioutil.ReadFile(files[0])
+		return b
+	}
+	f, err := cache.CreateLevel(dir, sha1.New(), rsum[:], qsum[:], level)
+	if err != nil {
+		restore()
+		return "create-error " + encBytes(onDisk())
+	}
+	var werr error
+	for i := 0; i < len(body) && werr == nil; i += 512 {
+		j := i + 512
+		if j > len(body) {
+			j = len(body)
+		}
+		_, werr = f.Write(body[i:j])
+	}
+	cerr := f.Close()
+	restore()
+	return fmt.Sprintf("obs %s %s %s", b01(werr != nil), b01(cerr != nil), encBytes(onDisk()))
 }
 
 // c13FsizeChild runs in its own process (it lowers the soft file-size limit of the process).
@@ -119,8 +225,50 @@ func c13Fsize(r *Run) {
 				if strings.HasPrefix(ans, "unreported") || strings.HasPrefix(ans, "child failed") || strings.HasPrefix(ans, "PANIC") {
 					r.fail(Failure{Oracle: "a writer whose file cannot grow (file-size limit) reports an error from Write or Close, or leaves an entry that opens and reads back exactly what was written", Op: line, Got: ans, Want: "reported … | ok"})
 				}
+				c13FsizeFit(r, exe, limit, n, level)
 			}
 		}
 	}
+	r.notes = append(r.notes, "fault model: what the real writer returned and left on disk under the file-size limit is an outcome of the Lean fault model runSession (ops cache.fault / cache.faultcreate, answered by a Go re-statement and by the model)")
 	r.notes = append(r.notes, "I/O faults of the writer: RLIMIT_FSIZE in a child process, limits around the header size (60) and inside the body, bodies 0..40000 (140000 thorough), levels -1 and 0")
+}
+
+// c13FsizeFit: the observation of one faulty run of the real writer (child process) must be an
+// outcome of the Lean fault model; the membership predicate is evaluated by its Go re-statement
+// and by the model (correspondence).
+func c13FsizeFit(r *Run, exe string, limit, n, level int) {
+	obsLine := fmt.Sprintf("cache.fsizeobs %d %d %d", limit, n, level)
+	out, err := exec.Command(exe, "-replay", obsLine).Output()
+	ans := strings.TrimSpace(string(out))
+	if err != nil || strings.HasPrefix(ans, "SKIP") || strings.HasPrefix(ans, "PANIC") {
+		r.count("fault-model/skipped")
+		return
+	}
+	f := strings.Fields(ans)
+	rsum, qsum := sha1.Sum([]byte("root")), sha1.Sum([]byte("data"))
+	var line string
+	switch {
+	case f[0] == "create-error" && len(f) == 2:
+		line = fmt.Sprintf("cache.faultcreate %d %s", sha1.Size, f[1])
+		r.count("fault-model/create-error")
+	case f[0] == "obs" && len(f) == 4:
+		disk := decBytes(sexp{atom: f[3]})
+		var bsum [sha1.Size]byte
+		if len(disk) >= 3*sha1.Size {
+			bsum = sha1.Sum(disk[3*sha1.Size:])
+		} else {
+			bsum = sha1.Sum(nil)
+		}
+		z := c13Deflate(c13FsizeBody(n), level)
+		line = fmt.Sprintf("cache.fault %s %s %s %s %s %s %s", encBytes(rsum[:]), encBytes(qsum[:]), encBytes(z), f[3], encBytes(bsum[:]), f[1], f[2])
+		r.count("fault-model/write-error=" + f[1] + ",close-error=" + f[2])
+	default:
+		r.count("fault-model/skipped")
+		return
+	}
+	got := r.op(line)
+	r.eval("fit|"+obsLine, true)
+	if got != "1" {
+		r.fail(Failure{Oracle: "the errors returned and the bytes left on disk by a writer under a file-size limit are an outcome of the fault model (createF / writeF / closeF)", Op: obsLine, Got: c13Short(ans), Want: "an outcome of runSession"})
+	}
 }
